@@ -124,6 +124,9 @@ def clause_env_module(interp):
         'at': Builtin('at', lambda it, r, i: it.getitem(r, i)
                       if isinstance(r, (NDArr, list, tuple, GenArr))
                       else r, pass_interp=True),
+        'integral': Builtin('integral', lambda it, f, a, b:
+                            __import__('pvc.models', fromlist=['x'])
+                            .integral_model(it, f, a, b), pass_interp=True),
         'isclose': Builtin('isclose', lambda it, a, b, tol=None:
                            it.ops.equals(a, b), pass_interp=True),
     }
@@ -331,11 +334,11 @@ class Engine:
                 if pr.outcome == 'return':
                     for (lb, text) in c.ensures:
                         try:
-                            g = it.ops.truth_value(
-                                eval_clause(it, text, pr.env))
+                            g = eval_clause(it, text, pr.env)
                             if isinstance(g, NDArr):
                                 from .ops import _flatten
                                 g = it.ops.all_(_flatten(g.data))
+                            g = it.ops.truth_value(g)
                         except PyRaise as e:
                             g = ('error', 'clause raised %r' % (e.exc,))
                         except Unsupported as e:
@@ -400,10 +403,11 @@ class Engine:
             try:
                 for (lb, text) in l.prove:
                     try:
-                        g = it.ops.truth_value(eval_clause(it, text, pr.env))
+                        g = eval_clause(it, text, pr.env)
                         if isinstance(g, NDArr):
                             from .ops import _flatten
                             g = it.ops.all_(_flatten(g.data))
+                        g = it.ops.truth_value(g)
                     except PyRaise as e:
                         g = ('error', 'clause raised %r' % (e.exc,))
                     pr.goals.append((lb, 'lemma', g, text))
